@@ -298,7 +298,11 @@ func replay(c *core.Ctx, raw json.RawMessage) error {
 		return fmt.Errorf("no concurrent case in this file (race reports carry their log instead)")
 	}
 	seen := map[string]bool{}
-	for i := 0; i < 200; i++ {
+	reps := 200
+	if k.Repeat > 0 && k.Repeat < reps {
+		reps = k.Repeat // expensive cases say how often they want to be run
+	}
+	for i := 0; i < reps; i++ {
 		k.HookSeed += uint64(i)
 		il, bad := runOnce(c, k)
 		seen[il] = true
@@ -307,7 +311,7 @@ func replay(c *core.Ctx, raw json.RawMessage) error {
 			return nil
 		}
 	}
-	fmt.Printf("  200 repetitions, %d distinct interleavings, no difference from the sequential reference\n", len(seen))
+	fmt.Printf("  %d repetitions, %d distinct interleavings, no difference from the sequential reference\n", reps, len(seen))
 	return nil
 }
 
@@ -377,7 +381,7 @@ func run(c *core.Ctx) {
 	deep := `{{define "deep"}}` + strings.Repeat("{{if $.C0}}", 9997) + "x{{$.S0}}" + strings.Repeat("{{end}}", 9997) + `{{end}}` +
 		`{{define "caller"}}<b>{{if $.C0}}{{if $.C0}}{{if $.C0}}{{if $.C0}}{{template "deep" .}}{{end}}{{end}}{{end}}{{end}}</b>{{end}}`
 	caller, callee := gop{Kind: "exect", Name: "caller"}, gop{Kind: "exect", Name: "deep"}
-	for i := 0; i < c.N(24, 240)/c.NShards; i++ {
+	for i := 0; i < c.N(8, 80)/c.NShards; i++ {
 		k := kase{Texts: []string{deep}, Data: genCase(r).Data, HookSeed: uint64(r.Intn(1 << 30)), Repeat: 1,
 			Threads: [][]gop{{caller, caller, caller, caller}, {caller, callee}, {caller, caller, caller}}}
 		c.Journal(util.JSON(map[string]string{"scenario": "error that points into the live tree of a callee"}))
